@@ -8,6 +8,8 @@ import TF.Proofs.BFieldMore
 import TF.Proofs.XFieldMore
 import TF.Proofs.XFieldK
 import TF.Proofs.GenBridgeBField
+import TF.Proofs.GenBridgePacc
+import TF.Proofs.GenBridgeBFieldOk
 /-!
 # C01 — base and extension field arithmetic is exact and canonical
 
@@ -627,5 +629,63 @@ theorem gen_mod_pow_inverse_transfer (a : Nat) (ha : a < P) :
   rw [hz] at h
   simpa [h] using hr
 example : (bfe_new 2) < P ∧ bfe_new 2 ≠ BF.zero := by decide +kernel
+
+end TF.C01
+
+/-! ## regenerated `power_accumulator` and the `_ok` flags of the regenerated loops
+
+`BFieldElement::power_accumulator::<N, M>` is regenerated too (`TF.Gen.Loops.bfe_power_accumulator`, `N` and `M` are
+ordinary arguments, arrays are lists, `result[j] = …` is `List.set`).  Proofs: `TF/Proofs/GenBridgePacc.lean`,
+`TF/Proofs/GenBridgeBFieldOk.lean`. -/
+namespace TF.C01
+open TF.Gen TF.BF TF.Model
+
+/-- regenerated `power_accumulator::<N, M>` = hand model in every lane, for all arrays of length `N` and all
+    `N, M < 2^64` (`usize` const generics): it terminates within its fuel and lane `k` is
+    `BF.powerAccumulator M base[k] tail[k]` -/
+theorem gen_power_accumulator_eq_model (N M : Nat) (base tail : List Nat) (hN : N < 2 ^ 64) (hM : M < 2 ^ 64)
+    (hb : base.length = N) (ht : tail.length = N) :
+    Loops.bfe_power_accumulator N M base tail = some (List.zipWith (BF.powerAccumulator M) base tail) :=
+  TF.GenBridge.BField.gen_power_accumulator_eq N M base tail hN hM hb ht
+example : Loops.bfe_power_accumulator 4 2 [bfe_new 10, bfe_new 100, bfe_new 1000, bfe_new 1]
+      [bfe_new 5, bfe_new 6, bfe_new 7, bfe_new 8] =
+    some [bfe_new 50000, bfe_new 600000000, bfe_new 7000000000000, bfe_new 8] := by decide +kernel
+
+/-- **transfer**: `power_accumulator_exact` for the code as it is in the source now — on arrays of `N` canonical words
+    the regenerated function returns `N` canonical words, lane `k` has the value `base[k]^(2^M) · tail[k]`, and no index
+    is out of bounds and nothing overflows on the way (`_ok`) -/
+theorem gen_power_accumulator_transfer (N M : Nat) (base tail : List Nat) (hN : N < 2 ^ 64) (hM : M < 2 ^ 64)
+    (hb : base.length = N) (ht : tail.length = N) (hbc : ∀ x ∈ base, x < P) (htc : ∀ x ∈ tail, x < P) :
+    ∃ r, Loops.bfe_power_accumulator N M base tail = some r ∧ r.length = N ∧
+      (∀ k (h : k < r.length) (h1 : k < base.length) (h2 : k < tail.length),
+        r[k] < P ∧ toF r[k] = toF base[k] ^ (2 ^ M) * toF tail[k]) ∧
+      Loops.bfe_power_accumulator_ok N M base tail = true := by
+  refine ⟨_, gen_power_accumulator_eq_model N M base tail hN hM hb ht, ?_, ?_,
+    TF.GenBridge.BField.gen_power_accumulator_ok_true N M base tail hN hM hb ht hbc htc⟩
+  · rw [List.length_zipWith, hb, ht, Nat.min_self]
+  · intro k h h1 h2
+    rw [List.getElem_zipWith]
+    exact power_accumulator_exact M _ _ (hbc _ (List.getElem_mem _)) (htc _ (List.getElem_mem _))
+example : Loops.bfe_power_accumulator_ok 2 3 [bfe_new 18446744069414584320, bfe_new 7] [bfe_new 2, bfe_new 0] = true ∧
+    (∀ x ∈ [bfe_new 18446744069414584320, bfe_new 7], x < P) := by decide +kernel
+
+/-- **the `_ok` flags of the regenerated loops hold on the documented domain** (canonical words, `u64` exponents): no
+    `u128` product overflows, Montgomery reduction does not overflow, no shift amount is out of range, the loop counters
+    stay in range (debug build = release build); the only assertion that can fail is `assert_ne!(self, zero)` of
+    `inverse`, and it fails exactly on zero -/
+theorem gen_loops_ok (a : Nat) (ha : a < P) :
+    (∀ e, e < 2 ^ 64 → Loops.bfe_mod_pow_ok a e = true ∧ Loops.bfe_mod_pow_u32_ok a e = true ∧
+      Loops.bfe_mod_pow_u64_ok a e = true) ∧
+    (∀ k, k < 2 ^ 64 → Loops.bfe_inverse_exp_ok a k = true) ∧
+    (Loops.bfe_inverse_ok a = true ↔ a ≠ BF.zero) ∧
+    Loops.bfe_square_ok a = true := by
+  refine ⟨fun e he => ?_, fun k hk => TF.GenBridge.BField.gen_exp_ok_true a k ha hk, ⟨fun h hz => ?_, fun h => ?_⟩,
+    TF.GenBridge.BField.square_ok_true a ha⟩
+  · have h := TF.GenBridge.BField.gen_mod_pow_ok_true a e ha he
+    exact ⟨h, h, h⟩
+  · rw [hz, TF.GenBridge.BField.gen_inverse_ok_zero] at h; cases h
+  · exact TF.GenBridge.BField.gen_inverse_ok_true a ha h
+example : bfe_new 18446744069414584320 < P ∧ bfe_new 18446744069414584320 ≠ BF.zero ∧
+    Loops.bfe_inverse_ok (bfe_new 18446744069414584320) = true := by decide +kernel
 
 end TF.C01
